@@ -404,6 +404,7 @@ func c12one(x *X, reg *pubRegime, loc *time.Location, cs c12case, step int) {
 	case 7:
 		doc["$schema"] = "https://gobl.org/draft-0/bill/order"
 		doc["issue_date"] = D
+		doc["op_date"] = dateAdd(D, 200) // the operation date is not the tax date
 	case 5:
 		// an invoice of another regime whose combo names this regime's country
 		host := "ES"
